@@ -143,7 +143,9 @@ class TrainCase(BaseCase):
             return False
         if plan['placement']['k'] > plan['world']:
             return False
-        return True
+        from simkfac import gen
+
+        return gen.ops_legal(plan)
 
     def shrinkers(self) -> list[Callable[[dict[str, Any]], bool]]:
         return [
